@@ -380,6 +380,11 @@ def case_c18(rep, spec):
                         pass
                 rep.count(1)
                 continue
+            if abs(lp) > (1e18 if F32 else 1e150):
+                # within a square root of the end of the float range: the gradient's true magnitude (~ |z| |dz/dtheta| with
+                # |z| = sqrt(2 |log_prob|)) need not be representable -- no implementation could return a finite number
+                rep.count(1)
+                continue
             if uses_bisection:       # reverse-mode through the search is refused by JAX by design: value clause only
                 rep.count(1, (z["name"], oname, "value", p["tag"][:20]))
                 continue
